@@ -59,7 +59,8 @@ func TestC02Determinism(t *testing.T) {
 			t.Fatal(err)
 		}
 		defer V.Remove()
-		w := &vnode.World{NUsers: opts.NUsers, NBPs: opts.NBPs, Public: opts.Public, DPoS: opts.Consensus == "dpos", GovBias: true}
+		w := &vnode.World{NUsers: opts.NUsers, NBPs: opts.NBPs, Public: opts.Public, DPoS: opts.Consensus == "dpos", GovBias: true,
+			TieBias: rapid.Bool().Draw(t, "tieBias")}
 		prev := P.Best()
 		nblocks := rapid.IntRange(1, 5).Draw(t, "nblocks")
 		classes := map[string]bool{fmt.Sprintf("votingReward=%v", votingReward): true}
